@@ -30,11 +30,44 @@ Definition fixup (secs : list (Z * Z * list itv)) : list (Z * Z * list itv) :=
 
 Definition regions (N : Z) (areas : list itv) : list (Z * Z * list itv) := fixup (sections N areas).
 
+(* ---------- numbering: add_protocluster / add_candidate_cluster / add_subregion / add_region ----------
+   insert the new feature at an index of the ordered list and renumber from that index:
+     self._xs.insert(index, x); for i in range(index, len(self._xs)): numbering[self._xs[i]] = i + 1
+   features are identified by identity: abstract ids *)
+Definition numbering := list (Z * Z).          (* feature id -> number; the first binding wins *)
+Fixpoint number_of (x : Z) (m : numbering) : option Z :=
+  match m with [] => None | (k, v) :: r => if x =? k then Some v else number_of x r end.
+
+Fixpoint renumber (l : list Z) (j : Z) (m : numbering) : numbering :=
+  match l with [] => m | x :: r => renumber r (j + 1) ((x, j) :: m) end.
+
+Definition add_at (index : nat) (x : Z) (st : list Z * numbering) : list Z * numbering :=
+  let '(l, m) := st in
+  (firstn index l ++ x :: skipn index l, renumber (x :: skipn index l) (Z.of_nat index + 1) m).
+
+(* clear_*: the list is emptied, the numbering dictionary keeps its stale entries *)
+Definition clear (st : list Z * numbering) : list Z * numbering := ([], snd st).
+
+Inductive nop := NAdd (index : Z) (x : Z) | NClear.
+Definition dNop : dec nop := fun l =>
+  match l with
+  | 0 :: i :: x :: r => Some (NAdd i x, r)
+  | 1 :: r => Some (NClear, r)
+  | _ => None
+  end.
+Definition apply_nop (st : list Z * numbering) (o : nop) : list Z * numbering :=
+  match o with NAdd i x => add_at (Z.to_nat i) x st | NClear => clear st end.
+
 Definition run_C06 (fn : Z) (l : list Z) : list Z :=
   match fn with
   | 1 => match dPair dZ (dList dItv) l with
          | Some ((N, areas), []) =>
            eList (fun r : Z * Z * list itv => let '(a, b, ms) := r in a :: b :: eList (fun m => [s m; e m]) ms) (regions N areas)
+         | _ => bad_input end
+  | 2 => match dList dNop l with
+         | Some (ops, []) =>
+           let st := fold_left apply_nop ops ([], []) in
+           eList (fun x => [x; match number_of x (snd st) with Some n => n | None => -1 end]) (fst st)
          | _ => bad_input end
   | _ => bad_input
   end.
